@@ -21,14 +21,20 @@ def canon(x):
     return ('?', type(x).__name__)
 
 
-def make_listener_class(desper, env, name, events):
-    """Logging listener decorated with the real event_handler; one method per mapped event.
+class ListenerRaised(Exception):
+    """What a "raise" listener raises from its callback (the harness' own class: never raised by the library)."""
+
+
+class ListenerBailedOut(BaseException):
+    """The same, not an Exception (a callback may raise anything)."""
+
+
+def _namespace(env, methods):
+    """Class body of a logging listener: methods = {method name: event it serves}.
 
     Inside the callback it reads the notified property of the notifying transform (the harness makes every
     assignment, so it knows which transform that is) and then behaves as the model's `beh` says."""
-    ns = {}
-
-    def make_cb(ev):
+    def make_cb(name, ev):
         def cb(self, *args, **kw):
             t = env.cur[-1]
             read = getattr(env.tr[t], PROP_OF[ev])
@@ -37,26 +43,49 @@ def make_listener_class(desper, env, name, events):
                 env.behave(self.name, t, PROP_OF[ev], args[0])
             else:
                 env.log.append((self.name, ev, ('BADARGS', len(args), tuple(sorted(kw))), read))
-        cb.__name__ = ev
+        cb.__name__ = name
         return cb
 
-    for ev in events:
-        ns[ev] = make_cb(ev)
+    ns = {m: make_cb(m, ev) for m, ev in methods.items()}
     # iteration order of the dispatcher's listener set is steered through the hash (both orders get realised)
     ns['__hash__'] = lambda self: env.rank[self.name]
     ns['__eq__'] = lambda self, other: self is other
-    return desper.event_handler(*events)(type('Listener_' + name, (), ns))
+    return ns
+
+
+def make_listener_class(desper, env, name, events):
+    """One class per listener, decorated with the real event_handler; one method per mapped event."""
+    return desper.event_handler(*events)(type('Listener_' + name, (), _namespace(env, {ev: ev for ev in events})))
+
+
+def make_shared_listener_class(env):
+    """One class for all listeners of a behaviour: it has a method for every event, and each *instance* says in its
+    own `__events__` which events it observes and through which method (the EventHandler protocol asks for an
+    attribute of the handler, nothing more; `subs[l]` of the model is unchanged)."""
+    ns = _namespace(env, {'handle_' + ev: ev for ev in EVENTS})
+
+    def init(self, events):
+        self.__events__ = {ev: 'handle_' + ev for ev in events}
+    ns['__init__'] = init
+    return type('Listener', (), ns)
 
 
 class TransformAdapter:
-    """kinds: transform id -> '2d' | '3d' (the constants T2 / T3 of the instance being replayed)."""
+    """kinds: transform id -> '2d' | '3d' (the constants T2 / T3 of the instance being replayed).
 
-    def __init__(self, desper, kinds):
+    A per-adapter counter of behaviours decides what the specification leaves open: the iteration order of the
+    listeners, how they are made, which exception a raising listener raises (VARIANTS combinations with two
+    listeners; `start` chooses where the counter begins)."""
+    VARIANTS = 8
+
+    def __init__(self, desper, kinds, start=0):
         self.desper = desper
         self.kinds = dict(kinds)
         self.n = 0
-        self.resets = 0
+        self.resets = start
         self.orders = set()
+        self.styles = set()
+        self.raised = set()
         V2, V3 = desper.math.Vec2, desper.math.Vec3
         # vectors identified by the model's tokens: Vec instances and plain tuples ("any vectors")
         self.vec = {
@@ -96,8 +125,16 @@ class TransformAdapter:
         perms = list(itertools.permutations(range(1, len(ls) + 1)))
         perm = perms[self.resets % len(perms)]
         env.rank = {l: perm[i] * 7 + 1 for i, l in enumerate(ls)}
+        # the per-adapter counter also decides (independently of the order) how the listeners are made - one
+        # decorated class each, or instances of one class with per-instance `__events__` - and what a "raise"
+        # listener raises
+        k = self.resets // len(perms)
+        shared = make_shared_listener_class(env) if k % 2 else None
+        env.exc_class = ListenerBailedOut if (k // 2) % 2 else ListenerRaised
+        self.styles.add('one class, per-instance __events__' if shared else 'one decorated class per listener')
         for l in ls:
-            o = make_listener_class(self.desper, env, l, sorted(init['subs'][l]))()
+            events = sorted(init['subs'][l])
+            o = shared(events) if shared else make_listener_class(self.desper, env, l, events)()
             o.name = l
             env.listeners[l] = o
 
@@ -110,8 +147,12 @@ class TransformAdapter:
             env.cur.pop()
 
     def _behave(self, l, t, prop, payload):
-        """"clamp": told a value other than the clamp value, assign the clamp value from inside the callback."""
+        """"clamp": told a value other than the clamp value, assign the clamp value from inside the callback;
+        "raise": told about its property, raise."""
         kind, p, tok = self.env.beh[l]
+        if kind == 'raise' and p == prop:
+            self.raised.add(self.env.exc_class.__name__)
+            raise self.env.exc_class(l)
         if kind != 'clamp' or p != prop:
             return
         c = ('n', CLAMP_ROT) if (self.kinds[t] == '2d' and prop == 'rotation') else ('v', tok)
@@ -173,7 +214,8 @@ class TransformAdapter:
 
     def expect(self, name, args, pre, post):
         t = post['call']['t']
-        exp = {'ret': 'ok',
+        # the exception of a raising listener reaches whoever made the assignment
+        exp = {'ret': self.env.exc_class.__name__ if post['call']['exc'] else 'ok',
                'log': tuple((e['l'], e['ev'], self.model_canon(t, e['sent']), self.model_canon(t, e['read']))
                             for e in post['log']),
                'ident': tuple(True for _e in post['log'])}
@@ -186,5 +228,7 @@ class TransformAdapter:
         return exp
 
     def finish(self, stats):
-        s = stats.extra.setdefault('listener_orders_realised', set())
-        s |= self.orders
+        for key, got in (('listener_orders_realised', self.orders), ('listener_styles', self.styles),
+                         ('listener_exceptions_raised', self.raised)):
+            s = stats.extra.setdefault(key, set())
+            s |= got
